@@ -5,8 +5,8 @@ from __future__ import annotations
 import ast
 
 from ..astutil import (
-    attr_stores, call_name, calls_in, dotted, enclosing_try, guard_atoms, lexical_guards, parent_map, test_atoms,
-    unparse, walk_local,
+    attr_stores, call_name, calls_in, dotted, enclosing_try, guard_atoms, lexical_guards, name_stores, parent_map,
+    test_atoms, unparse, walk_local,
 )
 from ..cfg import no_exc
 from ..report import Registry, sub, chain
@@ -15,6 +15,7 @@ from ._helpers_rules_c import (
     rcfg, receiver_class, reraise_view, test_edges, trivial_predicates,
 )
 from ._helpers_rob_a import fin_quiet, normal_form, transitive_owners
+from ._helpers_str_l import contradicted
 
 R = Registry(
     "C23",
@@ -56,6 +57,37 @@ def _nf(ctx, key, *keep, alias="all"):
     return normal_form(ctx, ctx.func(key), keep=keep, alias=alias)
 
 
+def _facts(flags=None, objs=None):
+    """Truth assignment for guard atoms; for an object-valued atom the `x is None` spelling is fixed as well."""
+    out = dict(flags or {})
+    for atom, val in (objs or {}).items():
+        out[atom] = val
+        out[atom + " is None"] = not val
+    return out
+
+
+def _feasible(f, g, facts):
+    """edge_ok: branch edges that are impossible while `facts` (state at entry) hold are cut -- three-valued, so
+    any other atom of a guard stays undecided.  A test that can run after a visible store to one of the fact
+    attributes is left alone (the fact may be stale there)."""
+    heads = {a[:-8] if a.endswith(" is None") else a for a in facts}
+    stores = [n for d, t, st in attr_stores(f.node) if d in heads for n in g.nodes_for(st)]
+    stale = g.reachable(stores) if stores else set()
+    return cut_edges([e for e in contradicted(g, facts) if e[0] not in stale])
+
+
+def _effect_owed(ctx, f, g, eff, facts, key, msg, ok):
+    """T-GUARD, the other direction (whitelist): when every documented precondition of the database call holds,
+    no further condition may route a normal completion around it."""
+    w = must_pass(g, [g.entry], [g.exit], eff, edge_ok=both(no_exc, _feasible(f, g, facts)))
+    ctx.check(w is None, key, msg, ok, f.loc, w)
+
+
+def _effect_needs(f, g, eff, facts):
+    """Is the database call unreachable when `facts` hold at entry?"""
+    return not (set(eff) & g.reachable([g.entry], edge_ok=_feasible(f, g, facts)))
+
+
 # ---------------------------------------------------------------------- C23-R1 (shared with C27-R4)
 EFFECT = {
     f"{ENG}::RootTransaction._do_commit": ("_connection_commit_impl", "_commit_impl", "_commit_twophase_impl"),
@@ -79,6 +111,11 @@ def commit_requires_active(ctx):
                   "(an ended transaction would act on the database again)",
                   "effect only under `self.is_active`", f.loc,
                   [g.nodes[n].describe() for n in bad] or None)
+        _effect_owed(ctx, f, g, eff, _facts({"self.is_active": True}), key + ":effect-owed",
+                     "an active transaction can complete commit() without the COMMIT / RELEASE SAVEPOINT call: a condition "
+                     "other than self.is_active routes around the database effect (the work is reported committed but "
+                     "is not)",
+                     "self.is_active => the effect call is on every normal path")
         inactive = test_edges(g, lambda t, p: t == "self.is_active" and p is False)
         ctx.require(inactive, f"no `if self.is_active` branch in {key}")
         r = g.reachable([b for _, _, b in inactive])
@@ -101,16 +138,18 @@ def commit_requires_active(ctx):
                   "inactive but current -> _invalid_transaction()", f.loc, w)
 
 
-@R.rule("C23-R1", floor=6, template="T-GUARD",
+@R.rule("C23-R1", floor=8, template="T-GUARD",
         desc="Root/NestedTransaction._do_commit: the database-effect call is control-dependent on "
-             "self.is_active; the inactive branch always raises (via _invalid_transaction when still current)")
+             "self.is_active and on nothing else (an active transaction always reaches it); the inactive branch "
+             "always raises (via _invalid_transaction when still current)")
 def r1(ctx):
     commit_requires_active(ctx)
 
 
 # ---------------------------------------------------------------------- C23-R2
-@R.rule("C23-R2", floor=11, template="T-PATH",
-        desc="_close_impl: rollback only while active, deactivation on every exit; "
+@R.rule("C23-R2", floor=13, template="T-PATH/T-GUARD",
+        desc="_close_impl: rollback while active and only then (the guard of the database call is exactly the "
+             "documented activity conditions), deactivation on every exit; "
              "RootTransaction._do_commit: finally cancels savepoints and deactivates, "
              "connection._transaction is cleared only when COMMIT succeeded")
 def r2(ctx):
@@ -123,6 +162,11 @@ def r2(ctx):
     bad = [n for n in rb if ("self.is_active", True) not in guard_atoms(g.edge_guards(n))]
     ctx.check(not bad, f.key + ":rollback-guarded", "ROLLBACK is emitted although the transaction is not active",
               "rollback only under `self.is_active`", f.loc)
+    _effect_owed(ctx, f, g, rb, _facts({"self.is_active": True}), f.key + ":rollback-owed",
+                 "an active transaction can be closed / rolled back without the ROLLBACK call: a condition other than "
+                 "self.is_active routes around the database effect (the work stays in the database transaction and a "
+                 "later commit on the connection publishes it)",
+                 "self.is_active => ROLLBACK is on every normal path")
     deact = call_nodes(g, lambda nm, c: nm == "self._deactivate_from_connection")
     was_inactive = test_edges(g, lambda t, p: t == "self.is_active" and p is False)
     w = must_pass(g, [g.entry], [g.exit, g.raise_exit], deact, edge_ok=both(fin_quiet(g), cut_edges(was_inactive))) if deact else ["no _deactivate_from_connection()"]
@@ -141,11 +185,28 @@ def r2(ctx):
     g = ctx.cfg(f)
     rb = calls_ending(g, "_rollback_to_savepoint_impl")
     ctx.require(rb, "no ROLLBACK TO SAVEPOINT call in NestedTransaction._close_impl")
-    want = {("self.is_active", True), ("self.connection._transaction", True), ("self.connection._transaction.is_active", True)}
-    bad = [n for n in rb if not want <= set(guard_atoms(g.edge_guards(n)))]
+    # the documented preconditions of ROLLBACK TO SAVEPOINT: this savepoint is active, the connection has a root
+    # transaction, the root is active.  Each of them is necessary (the call is unreachable when one is false) ...
+    needs = [
+        _facts({"self.is_active": False}),
+        _facts(None, {"self.connection._transaction": False}),
+        _facts({"self.connection._transaction.is_active": False}, {"self.connection._transaction": True}),
+    ]
+    bad = [fa for fa in needs if not _effect_needs(f, g, rb, fa)]
     ctx.check(not bad, f.key + ":rollback-guarded",
-              "ROLLBACK TO SAVEPOINT is emitted although the savepoint or its enclosing transaction is not active",
+              "ROLLBACK TO SAVEPOINT is emitted although the savepoint or its enclosing transaction is not active "
+              f"(reachable with {'; '.join(', '.join(f'{a}={v}' for a, v in sorted(fa.items()) if not a.endswith(' is None')) for fa in bad)})",
               "rollback only while savepoint and root are active", f.loc)
+    # ... and together they are sufficient: no further conjunct may skip the database effect of an active savepoint
+    _effect_owed(ctx, f, g, rb,
+                 _facts({"self.is_active": True, "self.connection._transaction.is_active": True},
+                        {"self.connection._transaction": True}),
+                 f.key + ":rollback-owed",
+                 "an active savepoint of an active transaction can be rolled back / closed without ROLLBACK TO SAVEPOINT: "
+                 "a condition other than `is_active`, `connection._transaction` and `connection._transaction.is_active` "
+                 "routes around the database effect (e.g. an enclosing savepoint rolled back while an inner one is "
+                 "outstanding emits no SQL; its work is committed with the outer transaction)",
+                 "savepoint active and root active => ROLLBACK TO SAVEPOINT is on every normal path")
     off = _stores(g, f.node, lambda d: d == "self.is_active", lambda v: _is_const(v, False))
     w = must_pass(g, [g.entry], [g.exit, g.raise_exit], off, edge_ok=fin_quiet(g)) if off else ["is_active never set False"]
     ctx.check(w is None, f.key + ":inactive-all-exits",
@@ -279,10 +340,11 @@ def r3(ctx):
 
 
 # ---------------------------------------------------------------------- C23-R4
-@R.rule("C23-R4", floor=4, template="T-PATH",
+@R.rule("C23-R4", floor=6, template="T-PATH",
         desc="TransactionalContext.__exit__: commit only when no exception is in flight; a failing commit "
              "rolls back before re-raising; the exceptional arm rolls back / closes; the enclosing "
-             "_trans_context_manager is restored on every exit of both arms")
+             "_trans_context_manager is restored on every exit of both arms, with the value __enter__ saved "
+             "(def-use: read before the slot is cleared; __enter__ saves before it overwrites)")
 def r4(ctx):
     f = _nf(ctx, f"{UTIL}::TransactionalContext.__exit__", "commit", "rollback", "close", "_transaction_is_active",
             "_rollback_can_be_called", "_transaction_is_closed")
@@ -315,15 +377,19 @@ def r4(ctx):
     ctx.check(w is None, f.key + ":error-arm-ends-transaction",
               "leaving the block with an exception (or an inactive transaction) can skip both rollback() and close()",
               "exceptional arm -> rollback() / close()", f.loc, w)
-    restore = []
+    restore, restore_stmts, reads = [], [], []
     for d, t, st in attr_stores(f.node):
-        if d.endswith("._trans_context_manager") and isinstance(st, ast.Assign) and (dotted(st.value) or "").endswith("_outer_trans_ctx"):
-            restore.extend(g.nodes_for(st))
+        if d.endswith("._trans_context_manager") and isinstance(st, ast.Assign):
+            rd = _reads_feeding(f, g, st, "_outer_trans_ctx")
+            if rd:
+                restore.extend(g.nodes_for(st))
+                restore_stmts.append(st)
+                reads.extend(rd)
     # the restore may be skipped only on the outcome of its own innermost guard (out-of-band __exit__)
     pm = f.pm
     skip_atoms = set()
-    for d, t, st in attr_stores(f.node):
-        if d.endswith("._trans_context_manager") and isinstance(st, ast.Assign) and (dotted(st.value) or "").endswith("_outer_trans_ctx"):
+    for st in restore_stmts:
+        if True:
             gs = lexical_guards(pm, st, stop=f.node)
             # (a flag local or, once the flag is resolved to its definition, a call-free condition on the subject)
             if gs and not any(isinstance(x, ast.Call) for x in ast.walk(gs[-1][0])):
@@ -335,6 +401,59 @@ def r4(ctx):
               "an exit of __exit__ leaves subject._trans_context_manager pointing at the finished context "
               "(later use raises `Can't operate on closed transaction inside context manager`)",
               "finally: subject._trans_context_manager = self._outer_trans_ctx on both arms", f.loc, w if restore else None)
+    # def-use: what is put back is the context saved by __enter__ -- the read of self._outer_trans_ctx that feeds
+    # the restore is not preceded by a store to that attribute in __exit__ (it is cleared for the next use only
+    # afterwards)
+    kills = [n for d, t, st in attr_stores(f.node) if d == "self._outer_trans_ctx" for n in g.nodes_for(st)]
+    after_kill = g.reachable(kills, include_starts=False) if kills else set()
+    late = sorted(n for n in set(reads) if n in after_kill)
+    ctx.check(bool(reads) and not late, f.key + ":restored-value-is-outer",
+              "the value written back to subject._trans_context_manager is read from self._outer_trans_ctx after __exit__ "
+              "itself has overwritten that attribute: the enclosing context manager is lost (after an inner "
+              "`with conn.begin_nested():` the connection no longer knows the enclosing `with conn.begin():` -- use of an "
+              "ended outer transaction inside its block is no longer refused)",
+              "self._outer_trans_ctx is read for the restore before it is cleared", f.loc,
+              (g.describe_path(g.witness(kills, late) or late) if late else None))
+    # the mirror image in __enter__: the enclosing context is saved before the subject's slot is overwritten
+    fe = _nf(ctx, f"{UTIL}::TransactionalContext.__enter__", "_get_subject")
+    ge = ctx.cfg(fe)
+    saved = []
+    for d, t, st in attr_stores(fe.node):
+        if d == "self._outer_trans_ctx" and isinstance(st, ast.Assign):
+            saved.extend(_reads_feeding(fe, ge, st, "_trans_context_manager"))
+    over = [n for d, t, st in attr_stores(fe.node) if d.endswith("._trans_context_manager") for n in ge.nodes_for(st)]
+    ctx.require(over, "TransactionalContext.__enter__ does not install itself as subject._trans_context_manager")
+    after_over = ge.reachable(over, include_starts=False)
+    late = sorted(n for n in set(saved) if n in after_over)
+    ctx.check(bool(saved) and not late, fe.key + ":outer-saved-before-overwrite",
+              "__enter__ " + ("reads subject._trans_context_manager for self._outer_trans_ctx after it has installed itself there: "
+                              "the context manager records itself as its own enclosing context" if saved else
+                              "does not save subject._trans_context_manager in self._outer_trans_ctx") +
+              " (the enclosing `with` block's context is lost when this one exits)",
+              "subject._trans_context_manager is read into self._outer_trans_ctx before it is overwritten", fe.loc,
+              ge.describe_path(late) if late else None)
+
+
+def _reads_feeding(f, g, st, attr):
+    """CFG nodes at which `<x>.<attr>` is read for the value stored by the assignment `st`: the assignment itself
+    (`a.b = self.<attr>`) or the definitions of the local it stores that reach it (`v = self.<attr>` ...
+    `a.b = v`: the value is as old as the read).  [] when the stored value is not such a read."""
+    v = st.value
+    if (dotted(v) or "").endswith("." + attr):
+        return list(g.nodes_for(st))
+    if not isinstance(v, ast.Name):
+        return []
+    defs = [(val, s2) for nm, val, s2 in name_stores(f.node) if nm == v.id]
+    use = set(g.nodes_for(st))
+    out = []
+    for val, s2 in defs:
+        mine = list(g.nodes_for(s2))
+        others = [n for _, s3 in defs if s3 is not s2 for n in g.nodes_for(s3)]
+        if mine and use & g.reachable(mine, avoid=others, include_starts=False):
+            if val is None or not (dotted(val) or "").endswith("." + attr):
+                return []
+            out += mine
+    return out
 
 
 def _enclosing_if_of(g, nodes):
@@ -710,3 +829,95 @@ R.mutant("benign-rob-begin-flag-reset-helper", ENG,
                sub("    def _rollback_impl(self) -> None:\n", "    def _end_begin(self) -> None:\n        self.__in_begin = False\n\n    def _rollback_impl(self) -> None:\n")), None)
 R.mutant("benign-rob-root-commit-finally-reordered", ENG,
          sub(_CANCEL2 + "\n                self._deactivate_from_connection()\n", "                self._deactivate_from_connection()\n" + _CANCEL2), None)
+
+# ---------------------------------------------------------------------- str2-j: round-2 seeds (C23_3, C23_4)
+# --- C23-R4 def-use of the saved outer context
+_RESTORE_CLEAR_FIRST = ("                self._trans_subject = self._outer_trans_ctx = None\n"
+                        "                if not out_of_band_exit:\n"
+                        "                    assert subject is not None\n"
+                        "                    subject._trans_context_manager = self._outer_trans_ctx\n")
+R.mutant("seed3-exit-outer-cleared-before-restore", UTIL,
+         sub("                        self.rollback()\n            finally:\n" + _RESTORE + "        else:",
+             "                        self.rollback()\n            finally:\n" + _RESTORE_CLEAR_FIRST + "        else:"), "C23-R4")
+R.mutant("exit-error-arm-outer-cleared-before-restore", UTIL,
+         sub("                else:\n                    if self._rollback_can_be_called():\n                        self.rollback()\n            finally:\n" + _RESTORE,
+             "                else:\n                    if self._rollback_can_be_called():\n                        self.rollback()\n            finally:\n" + _RESTORE_CLEAR_FIRST), "C23-R4")
+# the same mistake hidden in the extracted helper
+R.mutant("exit-restore-helper-clears-first", UTIL,
+         chain(sub(_RESTORE, "                self._restore_outer(subject, out_of_band_exit)\n", count=2),
+               sub("    def __exit__(self, type_: Any, value: Any, traceback: Any) -> None:\n",
+                   "    def _restore_outer(self, subject: Any, oob: bool) -> None:\n"
+                   "        self._trans_subject = self._outer_trans_ctx = None\n"
+                   "        if not oob:\n            assert subject is not None\n"
+                   "            subject._trans_context_manager = self._outer_trans_ctx\n\n"
+                   "    def __exit__(self, type_: Any, value: Any, traceback: Any) -> None:\n")), "C23-R4")
+# behaviour preserving: the references are released first, but the value to put back was read before
+R.mutant("benign-exit-outer-snapshot-then-clear", UTIL,
+         sub(_RESTORE,
+             "                outer = self._outer_trans_ctx\n"
+             "                self._trans_subject = self._outer_trans_ctx = None\n"
+             "                if not out_of_band_exit:\n"
+             "                    assert subject is not None\n"
+             "                    subject._trans_context_manager = outer\n", count=2), None)
+R.mutant("benign-exit-outer-snapshot-at-entry", UTIL,
+         chain(sub("        subject = getattr(self, \"_trans_subject\", None)\n",
+                   "        subject = getattr(self, \"_trans_subject\", None)\n        enclosing = self._outer_trans_ctx\n"),
+               sub(_RESTORE, _RESTORE_CLEAR_FIRST.replace("= self._outer_trans_ctx\n", "= enclosing\n"), count=2)), None)
+_ENTER = ("        trans_context = subject._trans_context_manager\n        self._outer_trans_ctx = trans_context\n\n"
+          "        self._trans_subject = subject\n        subject._trans_context_manager = self\n")
+R.mutant("enter-installs-before-saving-outer", UTIL,
+         sub(_ENTER, "        subject._trans_context_manager = self\n        trans_context = subject._trans_context_manager\n"
+                     "        self._outer_trans_ctx = trans_context\n\n        self._trans_subject = subject\n"), "C23-R4")
+R.mutant("enter-saves-outer-after-install-no-local", UTIL,
+         sub(_ENTER, "        self._trans_subject = subject\n        subject._trans_context_manager = self\n"
+                     "        self._outer_trans_ctx = subject._trans_context_manager\n"), "C23-R4")
+R.mutant("enter-never-saves-outer", UTIL,
+         sub(_ENTER, "        self._outer_trans_ctx = None\n        self._trans_subject = subject\n        subject._trans_context_manager = self\n"), "C23-R4")
+R.mutant("benign-enter-no-local", UTIL,
+         sub(_ENTER, "        self._trans_subject = subject\n        self._outer_trans_ctx = subject._trans_context_manager\n"
+                     "        subject._trans_context_manager = self\n"), None)
+# the read happens before the install, the store of the value read after it: same behaviour
+R.mutant("benign-enter-read-install-store", UTIL,
+         sub(_ENTER, "        trans_context = subject._trans_context_manager\n        subject._trans_context_manager = self\n"
+                     "        self._trans_subject = subject\n        self._outer_trans_ctx = trans_context\n"), None)
+# --- C23-R2 / R1: the guard of the database call is exactly the activity conditions
+_NESTED_GUARD = ("            if (\n                self.is_active\n                and self.connection._transaction\n"
+                 "                and self.connection._transaction.is_active\n            ):\n"
+                 "                self.connection._rollback_to_savepoint_impl(self._savepoint)\n")
+R.mutant("seed4-nested-rollback-only-when-innermost", ENG,
+         sub(_NESTED_GUARD, _NESTED_GUARD.replace("                self.is_active\n", "                self.is_active\n                and self.connection._nested_transaction is self\n")), "C23-R2")
+R.mutant("nested-rollback-only-when-unlinking", ENG,
+         sub(_NESTED_GUARD, "            if deactivate_from_connection:\n    " + _NESTED_GUARD.replace("\n            ", "\n                ").replace("\n                self.connection._rollback", "\n                    self.connection._rollback")), "C23-R2")
+R.mutant("root-rollback-skipped-for-plain-close", ENG,
+         sub("        try:\n            if self.is_active:\n                self._connection_rollback_impl()\n",
+             "        try:\n            if self.is_active and try_deactivate:\n                self._connection_rollback_impl()\n"), "C23-R2")
+R.mutant("root-rollback-skipped-when-savepoint-open", ENG,
+         sub("        try:\n            if self.is_active:\n                self._connection_rollback_impl()\n",
+             "        try:\n            if self.is_active:\n                if not self.connection._nested_transaction:\n                    self._connection_rollback_impl()\n"), "C23-R2")
+R.mutant("benign-nested-close-inverted-guard", ENG,
+         sub(_NESTED_GUARD,
+             "            root = self.connection._transaction\n"
+             "            if not self.is_active or root is None or not root.is_active:\n                pass\n"
+             "            else:\n                self.connection._rollback_to_savepoint_impl(self._savepoint)\n"), None)
+R.mutant("benign-nested-close-is-not-none", ENG,
+         sub(_NESTED_GUARD, _NESTED_GUARD.replace("and self.connection._transaction\n", "and self.connection._transaction is not None\n")), None)
+R.mutant("benign-root-close-active-flag-local", ENG,
+         sub("        try:\n            if self.is_active:\n                self._connection_rollback_impl()\n",
+             "        try:\n            active = self.is_active\n            if not active:\n                pass\n            else:\n                self._connection_rollback_impl()\n"), None)
+R.mutant("nested-release-skipped-when-root-inactive", ENG,
+         sub("            try:\n                self.connection._release_savepoint_impl(self._savepoint)\n",
+             "            try:\n                if self.connection._transaction.is_active:\n                    self.connection._release_savepoint_impl(self._savepoint)\n"), "C23-R1")
+R.mutant("root-commit-skipped-when-savepoint-open", ENG,
+         sub("            try:\n                self._connection_commit_impl()\n            finally:",
+             "            try:\n                if not self.connection._nested_transaction:\n                    self._connection_commit_impl()\n            finally:"), "C23-R1")
+R.mutant("benign-nested-commit-inverted", ENG,
+         sub("    def _do_commit(self) -> None:\n        if self.is_active:\n            try:\n                self.connection._release_savepoint_impl(self._savepoint)\n"
+             "            finally:\n                # nested trans becomes inactive on failed release\n                # unconditionally.  this prevents it from trying to\n"
+             "                # emit SQL when it rolls back.\n                self.is_active = False\n\n            # but only de-associate from connection if it succeeded\n"
+             "            self._deactivate_from_connection()\n        else:\n            if self.connection._nested_transaction is self:\n"
+             "                self.connection._invalid_transaction()\n            else:\n                raise exc.InvalidRequestError(\n"
+             "                    \"This nested transaction is inactive\"\n                )\n",
+             "    def _do_commit(self) -> None:\n        conn = self.connection\n        if not self.is_active:\n            if conn._nested_transaction is self:\n"
+             "                conn._invalid_transaction()\n            raise exc.InvalidRequestError(\"This nested transaction is inactive\")\n"
+             "        try:\n            conn._release_savepoint_impl(self._savepoint)\n        finally:\n            self.is_active = False\n"
+             "        self._deactivate_from_connection()\n"), None)
